@@ -1,6 +1,5 @@
 package vsim
 
-
 import (
 	"errors"
 	"fmt"
@@ -248,17 +247,18 @@ func newWSHalf(capacity int) *wsHalf {
 
 // FakeWS is one end of a simulated websocket (gorilla's framing is not simulated).
 type FakeWS struct {
-	name   string
-	rd, wr *wsHalf
-	closed bool
-	proto  string
-	pingH  func(string) error
-	pongH  func(string) error
-	c      *Ctx
-	peer   *FakeWS
-	nWrite int
-	werrAt int
-	tok    *netTok
+	name      string
+	rd, wr    *wsHalf
+	closed    bool
+	proto     string
+	pingH     func(string) error
+	pongH     func(string) error
+	c         *Ctx
+	peer      *FakeWS
+	nWrite    int
+	werrAt    int
+	tok       *netTok
+	isWriting bool
 }
 
 const (
@@ -337,7 +337,19 @@ func (f *FakeWS) write(typ int, data []byte) error {
 func (f *FakeWS) WriteControl(messageType int, data []byte, deadline time.Time) error {
 	return f.write(messageType, data)
 }
-func (f *FakeWS) WriteMessage(messageType int, data []byte) error { return f.write(messageType, data) }
+
+// WriteMessage: like gorilla/websocket, which allows one concurrent writer
+// only and panics ("concurrent write to websocket connection") when a second
+// WriteMessage overlaps the first; WriteControl may be called concurrently.
+func (f *FakeWS) WriteMessage(messageType int, data []byte) error {
+	if f.isWriting {
+		f.c.Violf("panic: concurrent write to websocket connection (two overlapping WriteMessage calls on %s; gorilla/websocket panics here)", f.name)
+	}
+	f.isWriting = true
+	err := f.write(messageType, data)
+	f.isWriting = false
+	return err
+}
 
 func (f *FakeWS) ReadMessage() (int, []byte, error) {
 	h := f.rd
